@@ -1,3 +1,4 @@
+#![allow(dead_code)]
 mod alphabet;
 mod c14;
 mod checks;
